@@ -6,7 +6,8 @@ from .. import model
 
 LEVEL = "model_checking"
 RULE = ("records = one column each: target_data on the n+1 cell bounds (integers, monotonic or not, repeated values, "
-        "values on bin edges), strictly monotonic bins in either direction, the real weight matrix recovered with unit "
+        "values on bin edges), strictly monotonic bins in either direction with integer or half-integer edges, target_data stored as float64 / "
+        "float32 / int64 / int32, bypass_checks given or not (documented as without effect here), the real weight matrix recovered with unit "
         "vectors (all columns of a call at once, so column independence is part of every record), a random-data "
         "linearity probe; via the kernel (exhaustive for n <= 2, theta and bins in 0..3) and via Grid.transform with "
         "target_data on bounds or on centres, extra dims, dask chunking of extra dims; non-trivial = distinct "
@@ -21,15 +22,15 @@ def inc_seqs(T):
     return out
 
 
-def kernel_batch(thetas, bins, rng):
+def kernel_batch(thetas, bins, rng, tdtype="float64", bin_den=1):
     """several columns (same n) in one kernel call per unit vector; returns per-column W and linearity probe"""
     import numpy as np
     from xgcm.transform import interp_1d_conservative
 
-    th = np.array(thetas, dtype="float64")
+    th = np.array(thetas, dtype="float64").astype(tdtype)       # integers: exact in every dtype used
     ncol, n1 = th.shape
     n = n1 - 1
-    b = np.array(bins, dtype="float64")
+    b = np.array(bins, dtype="float64") / bin_den
     W = [[None] * n for _ in range(ncol)]
     for i in range(n):
         phi = np.zeros((ncol, n))
@@ -43,14 +44,14 @@ def kernel_batch(thetas, bins, rng):
     return W, phis, lin
 
 
-def grid_batch(thetas, bins, rng, centres, chunk, extra_first, names=None):
+def grid_batch(thetas, bins, rng, centres, chunk, extra_first, names=None, tdtype="float64", bin_den=1, bypass=None):
     """the same through Grid.transform: columns along an extra dimension"""
     import numpy as np
     import xarray as xr
     import xgcm
 
     nm = names or (lambda x: x)
-    th = np.array(thetas, dtype="float64")
+    th = np.array(thetas, dtype="float64").astype(tdtype)
     ncol = th.shape[0]
     n = th.shape[1] - 1 if not centres else th.shape[1]
     ds = xr.Dataset(coords={nm("zc"): (nm("zc"), np.arange(n) + 0.5), nm("zo"): (nm("zo"), np.arange(n + 1) * 1.0),
@@ -59,7 +60,9 @@ def grid_batch(thetas, bins, rng, centres, chunk, extra_first, names=None):
     tdim = nm("zc") if centres else nm("zo")
     dims_t = (nm("col"), tdim) if extra_first else (tdim, nm("col"))
     tdata = xr.DataArray(th if extra_first else th.T, dims=dims_t, name=nm("theta"))
-    b = np.array(bins, dtype="float64")
+    b = np.array(bins, dtype="float64") / bin_den
+    # bypass_checks is documented to apply to the linear and log methods only: it must change nothing here
+    more = {} if bypass is None else {"bypass_checks": bool(bypass)}
 
     def run(phi):
         da = xr.DataArray(phi if extra_first else phi.T, dims=(nm("col"), nm("zc")) if extra_first else (nm("zc"), nm("col")), name=nm("phi"))
@@ -67,7 +70,7 @@ def grid_batch(thetas, bins, rng, centres, chunk, extra_first, names=None):
         if chunk:
             da = da.chunk({nm("col"): 1})
             td = td.chunk({nm("col"): 1})
-        res = grid.transform(da, nm("Z"), b, target_data=td, method="conservative")
+        res = grid.transform(da, nm("Z"), b, target_data=td, method="conservative", **more)
         newdim = [d for d in res.dims if d != nm("col")]
         res = res.transpose(nm("col"), *newdim)
         return np.asarray(res.values), newdim
@@ -92,14 +95,15 @@ def execute(job):
     recs = []
     try:
         if job["via"] == "kernel":
-            W, phis, lin = kernel_batch(job["thetas"], job["bins"], rng)
+            W, phis, lin = kernel_batch(job["thetas"], job["bins"], rng, job.get("tdtype", "float64"), job.get("bin_den", 1))
             newdim = ["-"]
             thetas = job["thetas"]
             scale = 1
         else:
             centres = job["via"] == "grid-centres"
             W, phis, lin, newdim = grid_batch(job["thetas"], job["bins"], rng, centres, job.get("chunk", False),
-                                              job.get("extra_first", True))
+                                              job.get("extra_first", True), None, job.get("tdtype", "float64"),
+                                              job.get("bin_den", 1), job.get("bypass"))
             scale = 2 if centres else 1
             if centres:
                 thetas = []
@@ -107,9 +111,11 @@ def execute(job):
                     thetas.append([(tc[max(k - 1, 0)] + tc[min(k, len(tc) - 1)]) for k in range(len(tc) + 1)])
             else:
                 thetas = job["thetas"]
+        den = job.get("bin_den", 1)
         for c, cid in enumerate(job["ids"]):
-            recs.append({"id": cid, "ev": "Conservative", "via": job["via"], "theta": thetas[c],
-                         "thetac": job["thetas"][c] if job["via"] == "grid-centres" else [],
+            recs.append({"id": cid, "ev": "Conservative", "via": job["via"], "theta": [v * den for v in thetas[c]],
+                         "thetac": [v * den for v in job["thetas"][c]] if job["via"] == "grid-centres" else [],
+                         "tdtype": job.get("tdtype", "float64"), "bin_den": den, "bypass": str(job.get("bypass")),
                          "bins": [v * scale for v in job["bins"]], "phi": phis[c], "ncol": len(job["ids"]),
                          "chunk": bool(job.get("chunk")), "expect_newdim": ["-"] if job["via"] == "kernel" else ["theta"],
                          "out": {"k": "weights", "W": W[c], "lin": lin[c], "newdim": newdim}})
@@ -144,12 +150,16 @@ def gen_jobs(rng, thorough):
         ln = n if via == "grid-centres" else n + 1
         thetas = [[rng.randint(0, T2) for _ in range(ln)] for _ in range(ncol)]
         k = rng.randint(2, min(T2 + 1, 6))
-        bins = sorted(rng.sample(range(-1, T2 + 2), k))
+        bin_den = rng.choice([1, 1, 2])
+        # bins in units of 1 / bin_den (half-integer edges when bin_den = 2)
+        bins = sorted(rng.sample(range(-bin_den, bin_den * (T2 + 1) + 1), k))
         if rng.random() < 0.4:
             bins = bins[::-1]
         ids = list(range(cid + 1, cid + 1 + ncol))
         cid += ncol
-        jobs.append({"via": via, "thetas": thetas, "bins": bins, "ids": ids, "seed": cid,
+        jobs.append({"via": via, "thetas": thetas, "bins": bins, "ids": ids, "seed": cid, "bin_den": bin_den,
+                     "tdtype": rng.choice(["float64", "float64", "float32", "int64", "int32"]),
+                     "bypass": rng.choice([None, None, True, False]) if via != "kernel" else None,
                      "chunk": rng.random() < 0.4, "extra_first": rng.random() < 0.5})
     return jobs
 
@@ -202,9 +212,13 @@ def replay(ctx, rp):
     recs = []
     for c in rp["cases"]:
         if c["via"] == "grid-centres":
-            job = {"via": c["via"], "thetas": [c["thetac"]], "bins": [b // 2 for b in c["bins"]], "ids": [c["id"]], "seed": 1}
+            job = {"via": c["via"], "thetas": [[v // c.get("bin_den", 1) for v in c["thetac"]]], "bins": [b // 2 for b in c["bins"]],
+                   "ids": [c["id"]], "seed": 1}
         else:
-            job = {"via": c["via"], "thetas": [c["theta"]], "bins": c["bins"], "ids": [c["id"]], "seed": 1}
+            den = c.get("bin_den", 1)
+            job = {"via": c["via"], "thetas": [[v // den for v in c["theta"]]], "bins": c["bins"], "ids": [c["id"]], "seed": 1}
+        job.update({"bin_den": c.get("bin_den", 1), "tdtype": c.get("tdtype", "float64"),
+                    "bypass": {"True": True, "False": False}.get(c.get("bypass"))})
         recs += execute(job)
     bad = ctx.validate("C07Trace", recs)
     for r in recs:
